@@ -384,7 +384,7 @@ def _admits_str(t) -> bool:
 
 OBJECT_KINDS = ["int", "bool", "str", "none", "float", "tuple0", "tuple1", "tuple2", "tuple_is", "list0", "list1", "list2",
                 "dict0", "dict_a", "dict_ab", "dict_an", "dict_a2", "set1", "fset1", "bytes0", "bytes1", "enum", "instA", "instB", "clsA", "clsB", "clsint",
-                "fsub", "isub", "cplx", "flagR", "flagRW", "flag0"]
+                "fsub", "isub", "cplx", "flagR", "flagRW", "flag0", "clsstr"]
 
 
 def make_object(kind: str, oi, oj, s):
@@ -443,6 +443,8 @@ def make_object(kind: str, oi, oj, s):
         return B
     if kind == "clsint":
         return int
+    if kind == "clsstr":
+        return str
     if kind == "flagR":
         return Perm.R
     if kind == "flagRW":
@@ -623,7 +625,7 @@ def _compatible_kinds(tb) -> List[str]:
     if k == "flag":
         return ["flagR", "flagRW", "flag0"]
     if k == "typeobj":
-        return ["clsA", "clsB", "clsint"]
+        return ["clsstr", "clsA", "clsint"]
     if k == "cls":
         return ["instA", "instB"] if tb[1] == "A" else ["instB"]
     if k == "type":
